@@ -66,3 +66,29 @@ BOX = REG.add(Contract(
     raises=[],
     props=("C03",),
 ))
+
+
+# ---- C03: the structure written holds the molecules of the topology in topology order ------------------------------------------
+from pyvc.types import TObj as _TObj, TList as _TList, TRec as _TRec, slist_get as _get
+
+_MM = _TRec("polyply.src.meta_molecule:MetaMolecule", molecule=_TObj)
+_TOP = _TRec("polyply.src.topology:Topology", molecules=_TList(_MM), force_field=_TObj)
+_SYS = _TRec("System", molecules=_TList(_TObj), force_field=_TObj)
+_i = z3.Int("i_")
+REG.add(Contract("vermouth.system:System", params=dict(), result=_SYS, trusted=True, note="vermouth System(): an empty container"))
+TO_SYSTEM = REG.add(Contract(
+    "polyply.src.topology:Topology.convert_to_vermouth_system", params=dict(self=_TOP), result=_SYS,
+    ensures={"the system handed to the structure writer holds the atom-level molecule of every topology molecule, in topology order, and nothing else":
+             "same_order(result, self)"},
+    loops={0: Loop({"copied so far, in order": "same_order(system, self, k)", "the topology is only read": "top_eq(self, old(self))"})},
+    spec_fns=dict(same_order=lambda sys_, top, upto=None: z3.And(
+                      sys_.fields["molecules"].n == (top.fields["molecules"].n if upto is None else upto),
+                      z3.ForAll([_i], z3.Implies(z3.And(0 <= _i, _i < sys_.fields["molecules"].n),
+                                                 _get(sys_.fields["molecules"], _i) == _get(top.fields["molecules"], _i).fields["molecule"])),
+                      sys_.fields["force_field"] == top.fields["force_field"]) if upto is None else z3.And(
+                      sys_.fields["molecules"].n == upto,
+                      z3.ForAll([_i], z3.Implies(z3.And(0 <= _i, _i < upto),
+                                                 _get(sys_.fields["molecules"], _i) == _get(top.fields["molecules"], _i).fields["molecule"])),
+                      sys_.fields["force_field"] == top.fields["force_field"]),
+                  top_eq=lambda a, b: _TOP.eq(a, b)),
+    props=("C03",)))
